@@ -114,11 +114,14 @@ def parse_settings(text, base=None):
     return inputs, outputs, int(iterations or 0)
 
 
-def corpus_specs(pid):
-    """corpus/<pid>/*.json -> job specs (name, st, W, mode, program, base), run before the generated ones"""
+def corpus_specs(pid, quick=False):
+    """corpus/<pid>/*.json -> job specs (name, st, W, mode, program, base), run before the generated ones;
+    a seed marked "tier": "thorough" is left out of the quick tier (its class is covered there by another seed)"""
     out = []
     for f in sorted((fw.VERIF / 'corpus' / pid).glob('*.json')):
         d = json.loads(f.read_text())
+        if quick and d.get('tier') == 'thorough':
+            continue
         base = d.get('base')
         if 'base_file' in d:
             base = (fw.REPO / d['base_file']).read_text()
